@@ -56,7 +56,10 @@ try:
         if any(c not in SAFE for c in base[:-5]):
             S.violation('C15:filename-chars', f'file name {base!r} contains characters outside letters, digits, - and _', input=where)
         try:
-            pl2 = L.load_pipeline_from_workbook(openpyxl.load_workbook(fn, data_only=True))
+            # through a file object: openpyxl refuses by NAME a file whose name is just '.xlsx' (what an all-disallowed
+            # requested name cleans to); the repository's loader takes a workbook, not a name
+            with open(fn, 'rb') as fh:
+                pl2 = L.load_pipeline_from_workbook(openpyxl.load_workbook(fh, data_only=True))
         except Exception as e:
             S.violation('C15:load-exception', f'loading the stored file raised {type(e).__name__}: {e}', input=where)
             continue
